@@ -19,8 +19,8 @@ ASSUMPTIONS = [
     "are not mapped by humanize_exception; a failing getChild builds ErrorPage(None, ...) which twisted turns into a 500), 400 for PUT on a read-only mutable file, "
     "404/405/501 through a verify cap (UnknownNodeHandler has only GET).  No particular code is demanded",
     "requests are built on the real webish.TahoeLAFSRequest class with method / args / fields / content / postpath set directly and are served the way "
-    "Request.process does (site.getResourceFor + render + processingFailed); HTTP parsing (requestReceived, FieldStorage), the Root resource's static child table "
-    "(/uri, /cap, /file, /named), /private (TokenChecker) and the operations table (/operations/<handle>: the registered renderers are rendered directly) are outside",
+    "Request.process does (site.getResourceFor + render + processingFailed) from the real web.root.Root resource (/uri, /cap, /file, /named, /private); HTTP parsing "
+    "(requestReceived, FieldStorage, URL unquoting) and the operations table (/operations/<handle>: the registered result renderers are rendered directly) are outside",
     "write secrets are searched as base32 key fields / unknown-format write caps in the raw response bytes (headers and body, also URL-unquoted once and twice); "
     "confidentiality of the directory's encrypted write-cap field is C18's subject",
     "t=check / deep-check / repair requests (add-lease and repair do write to the grid with whatever authority the gateway holds) and SFTP are outside; "
@@ -36,7 +36,8 @@ def _c(label, **kw):
 
 OBLIGATIONS = [
     chx("ro_listing", "C41_h", "h_ro_listing", timeout=T,
-        cases={"quick": [_c("sdmf-ro", access=[0], md=[2, 3]), _c("mdmf-ro", access=[1], md=[0, 1], warm=[1]), _c("imm", access=[2], md=[0, 2])],
+        cases={"quick": [_c("sdmf-ro-cold", access=[0], md=[2, 3], warm=[0]), _c("sdmf-ro-warm", access=[0], md=[3], warm=[1]),
+                         _c("mdmf-ro", access=[1], md=[0, 1], warm=[1]), _c("imm", access=[2], md=[0, 2])],
                "thorough": [_c("sdmf-ro", access=[0]), _c("mdmf-ro", access=[1]), _c("imm", access=[2])]},
         desc="GET t=json / info / uri / readonly-uri / (HTML page) / rename-form and POST t=stream-manifest / start-manifest / start-deep-stats / start-deep-size "
              "(+ every output format of the registered result renderers) on a directory holding one child of each of the 15 cap kinds, on each child and on a grandchild "
@@ -48,29 +49,38 @@ OBLIGATIONS = [
         desc="control for ro_listing: through the WRITE cap t=json shows exactly the stored write cap of every child (rw_uri present iff the child has one) and the directory's own; "
              "the read-only slots of the answer (ro_uri, verify_uri, t=readonly-uri) never carry a write secret"),
     chx("ro_modify", "C41_h", "h_ro_modify", timeout=T,
-        cases={"quick": [_c("shape%d" % s, shape=[s], ri=[0, 3], when_done=[0]) for s in range(6)],
+        cases={"quick": [_c("shape%d" % s, shape=[s], ri=([0, 3] if s < 3 else [0]), when_done=[0]) for s in range(6)],
                "thorough": [_c("shape%d-%s" % (s, "mdmf" if m else "sdmf"), shape=[s], mdmf=[m]) for s in range(6) for m in (0, 1)]},
-        desc="39 modifying requests (POST t=mkdir / mkdir-with-children / mkdir-immutable / upload (CHK, SDMF, MDMF; new, existing mutable, existing immutable) / uri / delete / unlink / "
+        desc="42 modifying requests (POST t=mkdir / mkdir-with-children / mkdir-immutable / upload (CHK, SDMF, MDMF; new, existing mutable, existing immutable) / uri / delete / unlink / "
              "rename / relink to a writeable directory / set_children / set-children; PUT of a new child (CHK, format=, mutable=), of an existing mutable child (also offset=), of an "
-             "existing immutable child, t=uri, t=mkdir; POST child t=mkdir*; PUT through a missing intermediate directory; DELETE; the same one level deeper) x replace= absent / "
+             "existing immutable child, t=uri, t=mkdir; POST child t=mkdir*; PUT through a missing intermediate directory; DELETE; the same one level deeper; t= with surrounding blanks; "
+             "linking a write cap; mkdir format=mdmf) x replace= absent / "
              "true / false / only-files / TRUE / bogus x when_done x cold/warm gateway x SDMF/MDMF, on a directory D reached (0) below a root addressed by its read-only cap, (1) by a "
-             "read-only link in a writeable root, (2) by its own read-only cap, (3,5) as an immutable directory below a writeable / read-only root, (4) by its verify cap: the answer "
+             "read-only link in a writeable root, (2) by its own read-only cap, (3,5) as an immutable directory below a writeable / read-only root, (4) by its verify cap, routed from the real Root resource through /uri "
+             "(SDMF tree) and its alias /cap (MDMF tree): the answer "
              "is an error (400..599), every pre-existing object of the grid is byte-identical afterwards and no write attempt reaches the storage layer"),
     chx("rw_modify", "C41_h", "h_rw_modify", timeout=T,
-        desc="control for ro_modify: each of the 39 requests, sent along a path whose directories are all writeable, is carried out (2xx/3xx, when_done redirects POSTs) and changes the grid"),
+        desc="control for ro_modify: each of the 42 requests, sent along a path whose directories are all writeable, is carried out (2xx/3xx, when_done redirects POSTs) and changes the grid"),
     chx("ro_new_objects", "C41_h", "h_ro_new_objects", timeout=T,
         cases={"quick": [_c("all", ri=[0], when_done=[0], warm=[0])], "thorough": [_c("all", ri=[0, 2], when_done=[0], warm=[0, 1])]},
         desc="second half of 'changes nothing on the grid' for the requests of ro_modify: a refused request has not put NEW objects (an uploaded immutable file, a freshly created mutable "
              "slot) on the grid either"),
     chx("ro_file", "C41_h", "h_ro_file", timeout=T,
-        cases={"quick": [_c("q", ri=[0, 2, 3])], "thorough": [_c("all")]},
+        cases={"quick": [_c("q", ri=[0, 3])], "thorough": [_c("sdmf", mdmf=[0]), _c("mdmf", mdmf=[1])]},
         desc="PUT (whole file, offset=0, offset=4, format=mdmf), POST t=upload (with/without when_done), PUT t=uri, DELETE x replace= values x SDMF/MDMF x cold/warm gateway on a FILE addressed "
              "(0) by its read-only cap, (1) by a read-only link in a writeable directory (content operations only: replacing or removing the link is within the authority used), (2) as a "
              "writeable file below a read-only directory, (3) read-only link below a read-only directory, (4) by its verify cap, (5) immutable file by cap, (6) immutable file in an "
-             "immutable directory, (7) literal file: error answer, pre-existing objects byte-identical, no write attempt at the storage layer"),
+             "immutable directory, (7) literal file, (8,9) through the download-only routes /file/<cap>/<name> and /named/<cap>/<name>: error answer, pre-existing objects byte-identical, no write attempt at the storage layer"),
     chx("rw_file", "C41_h", "h_rw_file", timeout=T,
         desc="control for ro_file: on a writeable file in a writeable directory the content operations succeed and change exactly that file's slot to the expected bytes "
              "(offset writes splice), PUT t=uri / DELETE change exactly the parent directory"),
+    chx("private_token", "C41_h", "h_private_token", timeout=T,
+        cases={"quick": [_c("q", p=[0, 1, 17, 38, 39])], "thorough": [_c("all")]},
+        desc="the /private subtree of the real Root resource (twisted.web.guard.HTTPAuthSessionWrapper + web.private.TokenChecker / Token / TokenCredentialFactory / PrivateRealm, real "
+             "timing_safe_compare): GET / POST / PUT / DELETE /private/logs with an Authorization header built from a scheme (tahoe-lafs in 3 spellings, Basic, tahoe-lafs2, empty) and the "
+             "token itself, the token with one byte changed at position p, a proper prefix of length p, one byte longer, trailing blank, leading blank, case-swapped, repeated, or no header: "
+             "answered 401 unless the scheme is tahoe-lafs (any case) and the token is exactly the node's; the exact token is admitted",
+        outside="how the token file is created and protected on disk; the websocket log stream behind /private/logs/v1"),
     chx("relink_into", "C41_h", "h_relink_into", timeout=T,
         desc="POST t=relink from a WRITEABLE source directory (root, D via root, D by write cap) with to_dir= naming a destination without write authority (read-only cap, path through a "
              "read-only root, read-only link below a writeable root, immutable directory by cap and by path, verify cap, a file) x replace= values x SDMF/MDMF: error answer, nothing "
